@@ -7,14 +7,26 @@ From Yv Require Import Common.Base C01.Model C01.Spec C01.ProofsSplit C01.Proofs
 
 Definition abs (c : attrchar) : tok :=
   if is_quoting c then TQ
-  else TC (value c) (is_quoted c) (origin_eqb (origin_of c) SoftExpansion).
+  else match origin_of c with
+       | HardExpansion => TH (value c) (is_quoted c)
+       | Literal => TC (value c) (is_quoted c) false
+       | SoftExpansion => TC (value c) (is_quoted c) true
+       end.
 
 Definition abs_field (f : field) : pfield := map abs f.
 Definition abs_phrase (p : phrase) : list pfield := map abs_field (phrase_fields p).
 
-(* no character of hard-expansion origin (tilde expansion is not modelled) *)
-Definition nh (c : attrchar) : bool := negb (origin_eqb (origin_of c) HardExpansion).
+(* Vestigial side condition of the lemmas below: before tilde results became
+   tokens of their own ([TH]) it excluded characters of hard-expansion origin;
+   now every character qualifies. *)
+Definition nh (c : attrchar) : bool := true.
 Definition nh_phrase (p : phrase) : Prop := forallb (forallb nh) (phrase_fields p) = true.
+
+Lemma nh_trivial p : nh_phrase p.
+Proof.
+  unfold nh_phrase. induction (phrase_fields p) as [|f fs IH]; [reflexivity|].
+  cbn [forallb]. rewrite IH, andb_true_r. induction f; [reflexivity|assumption].
+Qed.
 
 (* ---- generic list lemmas ------------------------------------------------------ *)
 
@@ -60,7 +72,7 @@ Proof.
 Qed.
 
 Lemma abs_set_quoted c : abs (set_quoted c) = tok_quote (abs c).
-Proof. unfold abs, set_quoted; cbn. destruct (is_quoting c); reflexivity. Qed.
+Proof. unfold abs, set_quoted; cbn. destruct (is_quoting c), (origin_of c); reflexivity. Qed.
 
 Lemma abs_quote_field f : abs_field (quote_field f) = quote_pfield (abs_field f).
 Proof.
@@ -96,12 +108,12 @@ Qed.
 
 Lemma abs_attribute_char c : nh c = true -> abs (attribute_char c) = tok_expanded (abs c).
 Proof.
-  unfold nh, abs, attribute_char. destruct c as [v o q g]; cbn.
-  destruct o, g; cbn; try reflexivity; discriminate.
+  intros _. unfold abs, attribute_char. destruct c as [v o q g]; cbn.
+  destruct o, g; cbn; reflexivity.
 Qed.
 
 Lemma nh_attribute_char c : nh c = true -> nh (attribute_char c) = true.
-Proof. unfold nh, attribute_char. destruct c as [v o q g]; destruct o; cbn; auto. Qed.
+Proof. reflexivity. Qed.
 
 Lemma abs_attribute p :
   nh_phrase p -> abs_phrase (attribute p) = map (map tok_expanded) (abs_phrase p).
@@ -141,7 +153,7 @@ Lemma chars_of_abs f : chars_of (abs_field f) = remove_quotes_and_strip f.
 Proof.
   unfold chars_of, abs_field, remove_quotes_and_strip, strip, skip_quotes.
   induction f as [|c f IH]; [reflexivity|]. cbn. unfold abs at 1.
-  destruct (is_quoting c); cbn; rewrite IH; reflexivity.
+  destruct (is_quoting c), (origin_of c); cbn; rewrite IH; reflexivity.
 Qed.
 
 (* ---- IFS ------------------------------------------------------------------------------- *)
@@ -189,16 +201,16 @@ Proof.
     + cbn [abs_field map]. fold (abs_field f).
       destruct q; cbn [value is_quoting is_quoted]; rewrite andb_false_r; cbn [andb];
         cbn [to_pattern_chars is_quoting]; rewrite IH; reflexivity.
-  - destruct f as [|d f].
-    + destruct q, qd; reflexivity.
-    + change (abs_field (d :: f)) with (abs d :: abs_field f).
-      destruct q; cbn [value is_quoting is_quoted negb andb orb].
-      * rewrite andb_false_r. cbn [to_pattern_chars is_quoting is_quoted tok_pattern].
-        rewrite orb_true_r. cbn [negb]. rewrite andb_false_r. rewrite IH. reflexivity.
-      * rewrite andb_true_r. cbn [tok_pattern]. rewrite orb_false_r.
-        destruct (N.eqb v 92 && negb qd) eqn:E.
-        -- cbn [to_pattern_chars is_quoting]. rewrite IH. reflexivity.
-        -- cbn [to_pattern_chars is_quoting is_quoted value]. rewrite IH. reflexivity.
+  - destruct o; (destruct f as [|d f];
+      [ destruct q, qd; reflexivity
+      | change (abs_field (d :: f)) with (abs d :: abs_field f);
+        destruct q; cbn [value is_quoting is_quoted negb andb orb];
+        [ rewrite andb_false_r; cbn [to_pattern_chars is_quoting is_quoted tok_pattern];
+          rewrite orb_true_r; cbn [negb]; rewrite andb_false_r; rewrite IH; reflexivity
+        | rewrite andb_true_r; cbn [tok_pattern]; rewrite orb_false_r;
+          destruct (N.eqb v 92 && negb qd) eqn:E;
+          [ cbn [to_pattern_chars is_quoting]; rewrite IH; reflexivity
+          | cbn [to_pattern_chars is_quoting is_quoted value]; rewrite IH; reflexivity ] ] ]).
 Qed.
 
 Lemma pattern_abs_top f : to_pattern_chars (apply_escapes f) = tok_pattern false (abs_field f).
@@ -284,6 +296,37 @@ Proof.
         cbn [into_phrase]. rewrite abs_into_phrase_list. reflexivity.
       * unfold nh_phrase; cbn [phrase_fields forallb]. rewrite andb_true_r.
         apply nh_ifs_join. apply (nh_into_phrase (Some (Array l))).
+Qed.
+
+(* ---- command substitution: trailing newlines ----------------------------------------------------------- *)
+
+Lemma drop_newlines_app_single m c :
+  drop_newlines (m ++ [c]) = match drop_newlines m with
+                             | [] => if N.eqb c 10 then [] else [c]
+                             | d => d ++ [c]
+                             end.
+Proof.
+  induction m as [|a m IH].
+  - cbn. destruct (N.eqb_spec c 10) as [->|N]; [reflexivity|].
+    destruct c as [|p]; [reflexivity|].
+    repeat (match goal with q : positive |- _ => destruct q; try reflexivity end); congruence.
+  - destruct (N.eq_dec a 10) as [->|N].
+    + exact IH.
+    + assert (E : forall l, drop_newlines (a :: l) = a :: l).
+      { intros l. destruct a as [|p]; [reflexivity|]. cbn.
+        repeat (match goal with q : positive |- _ => destruct q; try reflexivity end); congruence. }
+      cbn [app]. rewrite !E. reflexivity.
+Qed.
+
+Lemma trim_end_newlines_eq s : trim_end_newlines s = strip_newlines s.
+Proof.
+  unfold trim_end_newlines. induction s as [|c r IH]; [reflexivity|].
+  cbn [rev strip_newlines]. rewrite drop_newlines_app_single, <- IH.
+  destruct (drop_newlines (rev r)) as [|d m] eqn:E.
+  - cbn. destruct (N.eqb c 10); reflexivity.
+  - rewrite rev_app_distr. change (rev [c]) with [c]. cbn [app].
+    destruct (rev (d :: m)) eqn:E2; [|reflexivity].
+    apply (f_equal (@length N)) in E2. rewrite rev_length in E2. discriminate.
 Qed.
 
 (* ---- the mutual induction --------------------------------------------------------------------------- *)
@@ -436,6 +479,16 @@ Proof.
   - (* TLit *) intros c ws e. cbn. eexists; repeat split.
   - (* TBs *) intros c ws e. cbn. eexists; repeat split.
   - (* TParam *) intros p m Hm. apply param_agree; exact Hm.
+  - (* TSubst *) intros raw ws e. cbn [expand_tunit sem_tunit]. unfold agree.
+    eexists; split; [reflexivity|]. split; [|apply nh_trivial].
+    unfold abs_phrase; cbn [phrase_fields map]. rewrite abs_to_field, trim_end_newlines_eq. reflexivity.
+  - (* TArith *) intros t Ht v ws e. cbn [expand_tunit sem_tunit].
+    pose proof (text_top_agree t true e Ht) as H. cbn [negb] in H. unfold agree in H |- *.
+    destruct (top_or_empty (sem_text false) text_is_empty t e) as [pfs e'|k|].
+    + destruct H as [ph [-> _]]. eexists; split; [reflexivity|]. split; [|apply nh_trivial].
+      unfold abs_phrase; cbn [phrase_fields map]. rewrite abs_to_field. reflexivity.
+    + rewrite H. reflexivity.
+    + exact I.
   - (* TNil *) intros ws e acc Hacc. cbn [expand_text_go sem_text]. unfold agree_acc.
     eexists; split; [reflexivity|]. split; [|exact Hacc].
     symmetry. apply (glue_nil_r_lemma (abs_phrase acc)).
@@ -466,6 +519,15 @@ Proof.
       * apply nh_double_quote; exact Hn.
     + rewrite H. reflexivity.
     + exact I.
+  - (* WDsq *) intros s ws e. cbn [expand_wunit sem_wunit]. unfold agree.
+    eexists; split; [reflexivity|]. split; [|apply nh_trivial].
+    unfold abs_phrase, dollar_single_quote, abs_field. cbn [phrase_fields map].
+    rewrite map_app, map_map. reflexivity.
+  - (* WTilde *) intros home slash ws e. cbn [expand_wunit sem_wunit]. unfold agree.
+    eexists; split; [reflexivity|]. split; [|apply nh_trivial].
+    unfold abs_phrase, tilde_finish, strip_suffix_slash, abs_field. cbn [phrase_fields map].
+    destruct (if slash then match rev home with 47%N :: r => rev r | _ => home end else home);
+      [reflexivity|]. rewrite map_map. reflexivity.
   - (* WNil *) intros ws e acc Hacc. cbn [expand_word_go sem_word]. unfold agree_acc.
     eexists; split; [reflexivity|]. split; [|exact Hacc].
     symmetry. apply (glue_nil_r_lemma (abs_phrase acc)).
@@ -604,6 +666,24 @@ Section FinalStage.
     pose proof (word_top_agree w true e (Hw w)) as H. cbn [negb] in H.
     unfold expand_word_single, expand_word, spec_word_single, agree in *.
     destruct (top_or_empty (sem_word false) word_is_empty w e) as [pfs e'|k|].
+    - destruct H as [ph [-> [Ha _]]].
+      destruct (ifs_value e') as [iv|] eqn:Ei; [|exact I].
+      rewrite <- chars_of_abs, (abs_ifs_join _ _ _ Ei), Ha. reflexivity.
+    - rewrite H. reflexivity.
+    - exact I.
+  Qed.
+
+  Lemma expand_text_single_refines_lemma t e :
+    match spec_text_single t e with
+    | SOk v e' => expand_text_single t e = Ok v e'
+    | SErr k => expand_text_single t e = Err k
+    | SUnspec => True
+    end.
+  Proof.
+    destruct expand_refines_sem_all as [_ [Ht _]].
+    pose proof (text_top_agree t true e (Ht t)) as H. cbn [negb] in H.
+    unfold expand_text_single, expand_text, spec_text_single, agree in *.
+    destruct (top_or_empty (sem_text false) text_is_empty t e) as [pfs e'|k|].
     - destruct H as [ph [-> [Ha _]]].
       destruct (ifs_value e') as [iv|] eqn:Ei; [|exact I].
       rewrite <- chars_of_abs, (abs_ifs_join _ _ _ Ei), Ha. reflexivity.
